@@ -11,6 +11,7 @@ for id in "${ids[@]}"; do
   avail=$(df --output=avail -k / | tail -1)
   if [ "$avail" -lt 30000000 ]; then GOFLAGS=-mod=mod go clean -cache >/dev/null 2>&1; fi
   checks=$(python3 -c "import json;print(' '.join(json.load(open('seeded/$id/meta.json'))['caught_by']))")
+  if [ -z "$checks" ]; then echo "$id  (recorded as not caught by any check: skipped)"; continue; fi
   out=$(scripts/tryseed.sh "$PWD/seeded/$id/patch.diff" $checks 2>&1 | grep -E '^(C[0-9]+: |tryseed)')
   while read -r line; do
     echo "$id  $line"
